@@ -119,7 +119,7 @@ def run_solve(d, tag, inst, release=False, timeout=30, checks=True):
     st = lib.run_harness("solve", cpath, hout, release=release, timeout=timeout)
     impl = lib.read_lines(hout)
     res = {"hstatus": st, "impl": impl, "status": "TIMEOUT" if st == "TIMEOUT" else "CRASH", "js": None,
-           "perm": None, "outchk": {}, "chk": [], "eval": {}, "panic": "", "dstatus": "OK"}
+           "perm": None, "outchk": {}, "chk": [], "eval": {}, "panic": "", "dstatus": "OK", "wire": {}}
     if st != "OK":
         return res
     res["perm"] = lib.perm_of(impl, inst)
@@ -155,4 +155,6 @@ def run_solve(d, tag, inst, release=False, timeout=30, checks=True):
             res["eval"] = dict(x.split("=") for x in p[1:])
         elif p[0] == "CHK":
             res["chk"].append((p[1], dict(x.split("=") for x in p[2:])))
+        elif p[0] in ("WIRE", "WIREJSON", "WIRESTART"):
+            res["wire"][p[0]] = p[1]
     return res
